@@ -40,6 +40,17 @@ RICH = {
 }
 
 
+from ..models import ports as pm  # noqa: E402
+
+SPECD = {
+    'steps': [S([['out_input', 'seen_n', 'n'], ['status', 'st']], ['wait', 1, 'w', None]), S([['out_input', 'seen_fixed', 'fixed']], ['value', 1])],
+    'spec': {'inputs': pm.ns({'n': pm.port(required=False, default=['counter', 100]), 'fixed': pm.port(required=False, valid_type='int', default=['callable', 7]), 'sub': pm.ns({'m': pm.port(required=False, default=['counter', 100])})})},
+    'inputs': {},
+}
+CODEC = dict(RICH, codec=True)
+HOOK_POINTS = {('on_run', 'post'), ('on_wait', 'post'), ('on_finish', 'post'), ('on_exit_running', 'post'), ('on_exit_waiting', 'post'), ('on_kill', 'post'), ('on_except', 'post'), ('on_output_emitted', 'post')}
+
+
 def enumerate_cases(tier, scope):
     cat = gen.CATALOGUE
     scheds = [
@@ -49,11 +60,12 @@ def enumerate_cases(tier, scope):
         [['tick', 1], ['kill', 'kt']],
         [['tick', 2], ['pause', 'p2'], ['tick', 1], ['kill', 'k2']],
     ]
-    progs = [RICH, cat['waitwait'], cat['failing'], cat['selfkill'], cat['chain']]
+    progs = [RICH, cat['waitwait'], cat['failing'], cat['selfkill'], cat['chain'], SPECD, CODEC]
     for prog in progs:
         for sched in scheds:
             for loader in ('default', 'custom'):
                 yield {'program': prog, 'schedule': sched, 'loader': loader}
+            yield {'program': prog, 'schedule': sched, 'loader': 'default', 'hook_points': True}
     from .c09 import _small_instrs
 
     for ins in _small_instrs(1)[:40]:
@@ -108,7 +120,10 @@ def _cases(draw, tier):
         steps.append({'async': is_async, 'body': body, 'ret': ret})
     inputs = draw(st.one_of(st.none(), st.dictionaries(st.sampled_from(['a', 'ns', 'b']), VALS, max_size=3)))
     sched = draw(gen.control_schedules(['pause', 'pause', 'play', 'kill', 'resume'], max_events=3, max_gap=3)) if draw(st.booleans()) else []
-    return {'program': {'steps': steps, 'inputs': inputs}, 'schedule': sched, 'loader': draw(st.sampled_from(['default', 'default', 'custom']))}
+    program = {'steps': steps, 'inputs': inputs}
+    if draw(st.integers(0, 3)) == 0:
+        program['codec'] = True
+    return {'program': program, 'schedule': sched, 'loader': draw(st.sampled_from(['default', 'default', 'custom'])), 'hook_points': draw(st.booleans())}
 
 
 def strategy(tier):
@@ -173,6 +188,7 @@ def _load_and_resave(ckpt, medium, loader):
 
 
 def execute(case):
+    pm.COUNTER[0] = 0
     viol = []
     classes = []
 
@@ -187,6 +203,13 @@ def execute(case):
         if not ex.start(create_task=False):
             return {'violations': [{'clause': 'construct', 'detail': repr(ex.construct_error)}], 'nontrivial': False, 'classes': []}
         ex.checkpoint('created', loader=loader)
+        if case.get('hook_points'):
+            # also save from inside the lifecycle hooks (after super()), where the previous state is still current
+            def from_hook(proc, hook, pos, ex=ex):
+                if (hook, pos) in HOOK_POINTS and proc is ex.proc:
+                    ex.checkpoint(f'hook:{hook}', loader=loader)
+
+            ex.world.extra['hook_listener'] = from_hook
         ex.launch_task()
         for ev in case.get('schedule', []):
             ex.event(ev)
